@@ -315,6 +315,194 @@ struct Sweep {
     size_t h1 = heap_bytes();
     if (h1 != h0) ctx.violation("heap_imbalance", "sweep_heap_imbalance", desc, "heap bytes %zu before, %zu after the documents died", h0, h1);
   }
+
+  // duplicate-key histories ----------------------------------------------------------------------
+  // An object is built by AddMember over a 4-key alphabet (so that keys repeat), the lookup map is created before
+  // or after the build or not at all, then up to three RemoveMember calls follow. The oracle is step-wise: the
+  // member list read through iteration must be exactly the built sequence, and after each RemoveMember(k) it must
+  // be the previous list with ONE member named k replaced by the last member (any of the duplicates - exact when
+  // the name is unique). After every step each key is looked up through every entry point, with the map, without
+  // it and with a rebuilt map: the result must be a member that bears the key (the very member when the key is
+  // unique), and a miss exactly when no member bears it. When all names are distinct again, == must be reflexive
+  // and agree with a deep copy and with a parse of the dump, in both operand orders.
+  struct Mem {
+    std::string key;
+    long id;
+    bool operator==(const Mem& o) const { return key == o.key && id == o.id; }
+  };
+  static std::vector<Mem> read_members(const N& n) {
+    std::vector<Mem> v;
+    for (auto it = n.MemberBegin(); it != n.MemberEnd(); ++it) {
+      Mem m;
+      m.key.assign(it->name.GetStringView().data(), it->name.GetStringView().size());
+      if (it->value.IsUint64())
+        m.id = (long)it->value.GetUint64();
+      else if (it->value.IsString() && it->value.Size() >= 2)
+        m.id = std::atol(std::string(it->value.GetStringView().data() + 1, it->value.Size() - 1).c_str());
+      else
+        m.id = -1;
+      v.push_back(m);
+    }
+    return v;
+  }
+  static bool lookups_ok(N& n, const std::vector<Mem>& L, const char* stage, const std::string& desc, vr::Ctx& ctx) {
+    static const char* K[5] = {"a", "b", "c", "d", "zz"};
+    if (n.Size() != L.size()) {
+      ctx.violation("dup_history", "sweep_dup_size", desc, "%s: Size() = %zu but iteration yields %zu members", stage, (size_t)n.Size(), L.size());
+      return false;
+    }
+    for (const char* k : K) {
+      std::vector<size_t> P;
+      for (size_t i = 0; i < L.size(); i++)
+        if (L[i].key == k) P.push_back(i);
+      auto judge = [&](const char* how, bool found, size_t index, long id) {
+        if (P.empty() ? found : (!found || std::find(P.begin(), P.end(), index) == P.end() || L[index].id != id)) {
+          ctx.violation("dup_history", "sweep_dup_lookup", desc, "%s: %s(\"%s\") %s%zu, but the members named so are at %zu position(s)%s", stage, how, k, found ? "finds index " : "misses, index ", found ? index : (size_t)0, P.size(),
+                        P.size() == 1 ? (" (index " + std::to_string(P[0]) + ")").c_str() : "");
+          return false;
+        }
+        return true;
+      };
+      auto idof = [](const N& v) -> long { return v.IsUint64() ? (long)v.GetUint64() : v.IsString() && v.Size() >= 2 ? std::atol(std::string(v.GetStringView().data() + 1, v.Size() - 1).c_str()) : -1; };
+      auto it = n.FindMember(StringView(k));
+      if (!judge("FindMember(view)", it != n.MemberEnd(), it != n.MemberEnd() ? (size_t)(it - n.MemberBegin()) : 0, it != n.MemberEnd() ? idof(it->value) : 0)) return false;
+      auto it2 = n.FindMember(k, std::strlen(k));
+      if (!judge("FindMember(ptr,len)", it2 != n.MemberEnd(), it2 != n.MemberEnd() ? (size_t)(it2 - n.MemberBegin()) : 0, it2 != n.MemberEnd() ? idof(it2->value) : 0)) return false;
+      if (n.HasMember(StringView(k)) != !P.empty()) {
+        ctx.violation("dup_history", "sweep_dup_lookup", desc, "%s: HasMember(\"%s\") = %d with %zu members of that name", stage, k, (int)n.HasMember(StringView(k)), P.size());
+        return false;
+      }
+      const N& cn = n;
+      const N& sub = cn[StringView(k)];
+      if (P.empty() ? !sub.IsNull() : (sub.IsNull() || [&] {
+            long id = idof(sub);
+            for (size_t i : P)
+              if (L[i].id == id) return false;
+            return true;
+          }())) {
+        ctx.violation("dup_history", "sweep_dup_lookup", desc, "%s: operator[](\"%s\") returns a value that no member of that name holds", stage, k);
+        return false;
+      }
+    }
+    return true;
+  }
+  static void dup_case(uint64_t code, vr::Ctx& ctx) {
+    // decode: removal sequence (1..3 keys), map point (0..2), build sequence (2..5 keys)
+    static const char* K[4] = {"a", "b", "c", "d"};
+    unsigned r = (unsigned)(code % 84);
+    code /= 84;
+    unsigned mappoint = (unsigned)(code % 3);
+    unsigned b = (unsigned)(code / 3);
+    std::vector<unsigned> rem, bld;
+    {
+      unsigned m = r < 4 ? 1 : r < 20 ? 2 : 3, x = r < 4 ? r : r < 20 ? r - 4 : r - 20;
+      for (unsigned i = 0; i < m; i++, x /= 4) rem.push_back(x % 4);
+      unsigned n = b < 16 ? 2 : b < 80 ? 3 : b < 336 ? 4 : 5, y = b < 16 ? b : b < 80 ? b - 16 : b < 336 ? b - 80 : b - 336;
+      for (unsigned i = 0; i < n; i++, y /= 4) bld.push_back(y % 4);
+    }
+    std::string desc = std::string(mappoint == 1 ? "CreateMap ; " : "");
+    for (unsigned k : bld) desc += std::string("AddMember(") + K[k] + ") ; ";
+    if (mappoint == 2) desc += "CreateMap ; ";
+    for (unsigned k : rem) desc += std::string("RemoveMember(") + K[k] + ") ; ";
+    if (ctx.want_sample) ctx.sample(desc);
+    ctx.eval();
+    bool has_dup = false;
+    for (size_t i = 0; i < bld.size(); i++)
+      for (size_t j = i + 1; j < bld.size(); j++) has_dup |= bld[i] == bld[j];
+    if (has_dup && mappoint) ctx.nontriv();
+    size_t h0 = heap_bytes();
+    if (kTrack) ta::ledger().reset();
+    {
+      Doc doc;
+      auto& al = doc.GetAllocator();
+      doc.SetObject();
+      if (mappoint == 1) doc.CreateMap(al);
+      std::vector<Mem> L;
+      for (size_t i = 0; i < bld.size(); i++) {
+        N v;
+        if (i % 2) {
+          std::string sv = "v" + std::to_string(i);
+          v = N(sv.data(), sv.size(), al);
+        } else
+          v = N((uint64_t)i);
+        doc.AddMember(StringView(K[bld[i]]), std::move(v), al, i % 2 == 0);
+        L.push_back(Mem{K[bld[i]], (long)i});
+      }
+      if (mappoint == 2) doc.CreateMap(al);
+      std::vector<Mem> got = read_members(doc);
+      if (!(got == L)) {
+        ctx.violation("dup_history", "sweep_dup_build", desc, "after the build the member list is not the sequence of AddMember calls");
+        return;
+      }
+      if (!lookups_ok(doc, L, "after the build", desc, ctx)) return;
+      for (size_t s = 0; s < rem.size(); s++) {
+        const char* k = K[rem[s]];
+        bool present = false;
+        for (auto& m : L) present |= m.key == k;
+        bool ret = doc.RemoveMember(StringView(k));
+        std::string stage = "after RemoveMember(" + std::string(k) + ") no. " + std::to_string(s + 1);
+        if (ret != present) {
+          ctx.violation("dup_history", "sweep_dup_remove", desc, "%s: returned %d but a member of that name was %s", stage.c_str(), (int)ret, present ? "present" : "absent");
+          return;
+        }
+        got = read_members(doc);
+        bool legal = false;
+        if (!present)
+          legal = got == L;
+        else
+          for (size_t i = 0; i < L.size() && !legal; i++) {
+            if (L[i].key != k) continue;
+            std::vector<Mem> exp = L;
+            exp[i] = exp.back();
+            exp.pop_back();
+            legal = got == exp;
+          }
+        if (!legal) {
+          ctx.violation("dup_history", "sweep_dup_remove", desc, "%s: the member list is not the previous one with one member of that name replaced by the last", stage.c_str());
+          return;
+        }
+        L = got;
+        if (!lookups_ok(doc, L, stage.c_str(), desc, ctx)) return;
+      }
+      // distinct names again: lookups exact with the map toggled, == reflexive and agreeing with copies
+      bool distinct = true;
+      for (size_t i = 0; i < L.size(); i++)
+        for (size_t j = i + 1; j < L.size(); j++) distinct &= L[i].key != L[j].key;
+      if (distinct) {
+        if (!(doc == doc)) ctx.violation("dup_history", "sweep_dup_equality", desc, "the object is not == itself");
+        {
+          Doc c;
+          c.CopyFrom(doc, c.GetAllocator());
+          if (!(c == doc) || !(doc == c)) ctx.violation("dup_history", "sweep_dup_equality", desc, "deep copy: copy == obj is %d, obj == copy is %d", (int)(c == doc), (int)(doc == c));
+          Doc p;
+          std::string text = doc.Dump();
+          p.Parse(text);
+          if (p.HasParseError() || !(p == doc) || !(doc == p)) ctx.violation("dup_history", "sweep_dup_equality", desc, "parse of the dump %s: parsed == obj is %d, obj == parsed is %d", text.c_str(), (int)(p == doc), (int)(doc == p));
+        }
+      }
+      doc.DestroyMap();
+      if (!lookups_ok(doc, L, "after DestroyMap", desc, ctx)) return;
+      doc.CreateMap(al);
+      if (!lookups_ok(doc, L, "after CreateMap again", desc, ctx)) return;
+    }
+    if (std::is_same<Doc, FenceDoc>::value) {
+      if (fa::table().errors || !fa::table().live.empty()) {
+        ctx.violation("fence_ledger", "sweep_fence_ledger", desc, "fence allocator: %d foreign frees, %zu blocks still allocated after the documents died", fa::table().errors, fa::table().live.size());
+        fa::table().errors = 0;
+      }
+    }
+    if (kTrack) {
+      ta::Ledger& L2 = ta::ledger();
+      if (L2.errors) ctx.violation("ledger_error", "sweep_ledger_error", desc, "%s", L2.first_error.c_str());
+      if (!L2.live.empty()) {
+        ctx.violation("ledger_leak", "sweep_ledger_leak", desc, "%zu blocks still allocated after the documents died", L2.live.size());
+        for (auto& kv : L2.live) std::free(kv.first);
+        L2.live.clear();
+      }
+    }
+    size_t h1 = heap_bytes();
+    if (h1 != h0) ctx.violation("heap_imbalance", "sweep_heap_imbalance", desc, "heap bytes %zu before, %zu after the documents died", h0, h1);
+  }
 };
 
 int main(int argc, char** argv) {
@@ -345,6 +533,12 @@ int main(int argc, char** argv) {
   fa.group = "WA";
   fa.chunk = 16;
   fa.rule = "arrays of " + sizes + " elements built in 3 ways (PushBack / Reserve + PushBack / Parse) x " + std::to_string((int)NOPS_ARR) + " operations (PopBack, 5 Erase ranges, PushBack once and n+1 times, Reserve, Clear, CopyFrom + change of the source, move out and back, element assignment) x the two allocators; same oracle";
+  vr::Family fd;
+  fd.name = "W_duplicate_histories";
+  fd.count = 1360ull * 3 * 84 * NALLOC;
+  fd.group = "WD";
+  fd.chunk = 256;
+  fd.rule = "objects built by every sequence of 2..5 AddMember calls over the keys a,b,c,d (names repeat; copied and constant keys, owned-string and integer values), lookup map absent / created before the build / after it, followed by every sequence of 1..3 RemoveMember calls: step-wise conformance (the member list is the previous one with one member of that name replaced by the last), every key looked up through FindMember(view / ptr,len), HasMember, operator[] after every step and with the map destroyed and rebuilt (a member bearing the key; the very one when unique; a miss iff none), == reflexive and equal to deep copy / parse of the dump in both orders once names are distinct; pool / ledger / fence allocator";
   vr::CheckFn check = [&](const vr::Family& f, uint64_t idx, vr::Ctx& ctx) {
     // first call in this process: run representative cases once with the oracle muted, so that one-time
     // allocations of the harness and of the C++ runtime are not taken for a heap imbalance of the first case
@@ -361,10 +555,23 @@ int main(int argc, char** argv) {
         Sweep<PoolDoc>::array_case(20, op % 3, op, ctx);
         Sweep<TrackDoc>::array_case(20, op % 3, op, ctx);
       }
+      for (uint64_t c : {0ull, 100000ull, 342000ull}) {
+        Sweep<PoolDoc>::dup_case(c, ctx);
+        Sweep<TrackDoc>::dup_case(c, ctx);
+      }
       ctx.quiet = q;
     }
     unsigned alloc = (unsigned)(idx % NALLOC);
     idx /= NALLOC;
+    if (f.name[2] == 'd') {
+      if (alloc == 0)
+        Sweep<PoolDoc>::dup_case(idx, ctx);
+      else if (alloc == 1)
+        Sweep<TrackDoc>::dup_case(idx, ctx);
+      else
+        Sweep<FenceDoc>::dup_case(idx, ctx);
+      return;
+    }
     if (f.name[2] == 'o') {
       unsigned op = (unsigned)(idx % NOPS_OBJ);
       idx /= NOPS_OBJ;
@@ -391,7 +598,7 @@ int main(int argc, char** argv) {
         Sweep<FenceDoc>::array_case(n, build, op, ctx);
     }
   };
-  std::vector<vr::Family> fams = {fo, fa};
+  std::vector<vr::Family> fams = {fo, fa, fd};
   if (args.replay) return R.replay_one(fams, check);
   const std::string only = args.get("only");
   for (auto& f : fams)
